@@ -45,6 +45,8 @@ pub struct ShapeCfg {
     pub types: String,
     pub thorough: bool,
     pub seed: u64,
+    /// also run the monitor on instances assembled from the public constructors (one kind per length)
+    pub ctor_instances: bool,
 }
 
 pub fn lengths_from_args(args: &Args, dense_max: usize, struct_max: usize, struct_count: usize, tag: u64) -> Vec<usize> {
@@ -116,6 +118,24 @@ fn for_each_fft<T: Elem>(
                 let mut rng = Rng::new(mix(&[cfg.seed, n as u64, pk as u64, dir as u64, T::EPS.to_bits()]));
                 f(st, &case_base, &fft, n, &mut rng);
                 st.set_distinct(&format!("{}|{}|{}|{}", pk.name(), T::NAME, dname(dir), n));
+            }
+        }
+        // transforms assembled from the public constructors are transforms too: a rotating constructor kind per length
+        if cfg.ctor_instances && n >= 2 && n <= 4096 {
+            let kind = n % 6;
+            let pk = cfg.planners[n % cfg.planners.len()];
+            let dir = if n % 2 == 0 { Dir::Fwd } else { Dir::Inv };
+            if let Some(mut planner) = AnyPlanner::<T>::new(pk) {
+                let built = std::panic::catch_unwind(std::panic::AssertUnwindSafe(|| crate::conc::constructed::<T>(kind, n, dir, &mut planner)));
+                if let Ok((text, fft)) = built {
+                    let m = fft.len();
+                    let case_base = format!("planner={} type={} dir={} ctor={} n={}", pk.name(), T::NAME, dname(dir), text, m);
+                    crate::guard::set_case(&format!("{} {} seed={}", cfg.prop, case_base, cfg.seed));
+                    let mut rng = Rng::new(mix(&[cfg.seed, n as u64, 0xC7]));
+                    st.inc("constructed_instances");
+                    f(st, &case_base, &fft, m, &mut rng);
+                    st.set_distinct(&format!("ctor|{}|{}", T::NAME, text));
+                }
             }
         }
     }
@@ -665,15 +685,15 @@ pub fn run(args: &Args) {
     let light = args.flag("light");
     let (dense_max, struct_max, struct_count) = match (prop.as_str(), t) {
         ("C03", false) => (1024, 1 << 17, 60),
-        ("C03", true) => (16384, 1 << 21, 500),
+        ("C03", true) => (4096, 1 << 21, 300),
         ("C07", false) => (512, 1 << 15, 60),
-        ("C07", true) => (8192, 1 << 18, 400),
+        ("C07", true) => (2048, 1 << 18, 300),
         ("C08", false) => (1024, 1 << 16, 80),
-        ("C08", true) => (16384, 1 << 20, 500),
+        ("C08", true) => (4096, 1 << 20, 400),
         ("C09", false) => (512, 1 << 14, 60),
-        ("C09", true) => (4096, 1 << 17, 400),
+        ("C09", true) => (2048, 1 << 17, 300),
         ("C15", false) => (1024, 1 << 16, 80),
-        ("C15", true) => (16384, 1 << 20, 500),
+        ("C15", true) => (4096, 1 << 20, 400),
         _ => (256, 4096, 20),
     };
     let mut lengths = lengths_from_args(args, dense_max, struct_max, struct_count, 0x5a);
@@ -687,6 +707,7 @@ pub fn run(args: &Args) {
         types: args.get("types").unwrap_or("f32,f64").to_string(),
         thorough: t,
         seed: args.seed,
+        ctor_instances: !args.flag("no-ctor") && !light && args.get("ns").is_none(),
     };
     let mut st = Stats::new();
     macro_rules! go {
